@@ -253,12 +253,22 @@ CLAIMS = {
         "[ln 0.01, ln 85]. NOT decided: ideal-gas relations, the fixed-pressure existence rule, which root is selected in the two-phase region, "
         "fugacity = 10^SI, gases in EQUILIBRIUM_PHASES (all solver outcomes)."),
   note=NOTE_COMMON + "Literals are matched to the defining constants by value (2e-4 relative); comparison is by polynomial identity (engine/ratfun.py), so equivalent rewrites pass (benign mutant kept). Partial claim labelled `other`."),
+ "C20": dict(
+  technique="whole-program census of potential and charge-density conversions (each multiplicative term containing the Faraday constant classified by an exact rational independence test) + exact rational comparison of the charge-balance residuals with the Gouy-Chapman, constant-capacitance and CD-MUSIC relations",
+  text=("C20 as a whole is numerical and is NOT decided. Decided is the closed-form part of its 'charge-potential relation' clause: (a) every "
+        "conversion between the potential unknown (log activity of a psi master species) and volts, anywhere in the engine, is "
+        "psi = 2 la ln10 R T/F (diffuse layer, constant capacitance) or psi = -la ln10 R T/F (CD-MUSIC planes), and where the code selects the model "
+        "by surface type the form matches the type; (b) every conversion between equivalents of charge and C/m2 is q F/(A g) or its inverse; (c) the "
+        "charge-balance residuals of Phreeqc::residuals are sqrt(8 eps eps0 R T 1e6) sqrt(I) sinh(la ln10) - q F/(A g) (Gouy-Chapman), "
+        "C (2 la ln10 R T/F) - q F/(A g) (constant capacitance), sigma0 - C0 (psi0 - psi1) and (sigma0 + sigma1) - C1 (psi1 - psi2) (CD-MUSIC). "
+        "NOT decided: site balance and mass action of every surface species, the diffuse-layer integration and ion excess, the numerical values "
+        "reported."),
+  note=NOTE_COMMON + "Physical constants (R, F in kJ/V/eq and C/mol, eps0) are recognised by value (2e-4 relative), ln 10 through the member LOG_10. Partial claim labelled `other`."),
 }
 
 NOT_APPLICABLE = {
  "C03": "equilibrium end-state (SI = target, phase present/absent, site and mole-fraction sums) is the fixed point of an inequality-constrained Newton iteration; only its numeric outcome can be judged",
  "C18": "admissibility of each reported inverse model depends on the L1 solver's numeric output for each problem",
- "C20": "surface mass-action and charge-potential relations are numerical identities over all surfaces",
 }
 PENDING = {}
 
